@@ -41,6 +41,7 @@ type OutCase struct {
 	StallUntilDone bool `json:"stall,omitempty"` // the peer reads nothing until the writers are done
 	PeerPauseUs int `json:"peer_pause_us,omitempty"`
 	Added      bool `json:"added,omitempty"`  // connection is dialed with nbio.Dial and added with AddConn (instead of accepted)
+	CAF        bool `json:"caf,omitempty"`        // after the last operation the application calls CloseAfterFlush
 	DialAsync  bool `json:"dial_async,omitempty"` // connection is made by Engine.DialAsync; the "open" operations run inside the dial callback
 }
 
@@ -114,6 +115,7 @@ func genOutCase(r *simrt.Rand, tier string, prop string) *OutCase {
 	c.PeerPauseUs = r.Pick(0, 0, 10, 1000)
 	c.Added = r.Bool(0.15) && c.Eng.Network == "tcp"
 	c.DialAsync = !c.Added && r.Bool(0.12) && c.Eng.Network == "tcp"
+	c.CAF = r.Bool(0.15)
 	nops := r.Range(1, 6)
 	if tier == "thorough" {
 		nops = r.Range(1, 10)
@@ -298,6 +300,11 @@ func shrinkOut(ci interface{}) []interface{} {
 	if c.DialAsync {
 		x := c.copy()
 		x.DialAsync = false
+		out = append(out, x)
+	}
+	if c.CAF {
+		x := c.copy()
+		x.CAF = false
 		out = append(out, x)
 	}
 	if c.Added {
@@ -844,11 +851,30 @@ func runOut(t *testing.T, ci interface{}, trace bool, prop string) *common.Outco
 				nfaults += v
 			}
 		}
+		caf := false
+		if c.CAF && s.anyErr == nil && cs.Closes == 0 && !w.Failed() {
+			if closed, _ := cs.C.IsClosed(); !closed {
+				// "closes the connection once all the data that Write, Writev and Sendfile have
+				// accepted so far has been written": nothing accepted may be lost to the close
+				caf = true
+				cs.C.CloseAfterFlush()
+			}
+		}
 		w.EnterFair()
 		simrt.Quiesce(time.Second)
 		s.verifyRecvd()
 		closed, _ := cs.C.IsClosed()
-		if !closed && cs.Closes == 0 && s.anyErr == nil && !w.Failed() {
+		if caf && s.anyErr == nil && !w.Failed() {
+			o.Probe("close_after_flush_called")
+			if miss := s.missing(); miss != "" {
+				if closed || cs.Closes > 0 {
+					w.Fail("C01", "lost-at-close-after-flush", s.class(), "CloseAfterFlush was called after the last operation had returned; the connection has been closed but %s", miss)
+				} else {
+					q, qok := ProbeQueueLen(cs.C)
+					s.lostOrStalled(q, qok, miss)
+				}
+			}
+		} else if !closed && cs.Closes == 0 && s.anyErr == nil && !w.Failed() {
 			s.finalCheck()
 		} else {
 			o.Probe("conn_closed_before_end")
@@ -868,6 +894,27 @@ func runOut(t *testing.T, ci interface{}, trace bool, prop string) *common.Outco
 		o.Infra = fmt.Sprintf("run ended without finishing: %v", res.Blocked)
 	}
 	return o
+}
+
+// missing says what the peer has not received of the accepted output ("" = nothing).
+func (s *outState) missing() string {
+	cs := s.cs
+	if s.c.Multi {
+		n := 0
+		for _, ri := range s.recs {
+			if ri.ok && ri.seen == 0 {
+				n++
+			}
+		}
+		if n > 0 {
+			return fmt.Sprintf("%d accepted records never reached the peer", n)
+		}
+		return ""
+	}
+	if len(cs.Recvd) < len(cs.Expected) {
+		return fmt.Sprintf("the peer received %d of %d accepted bytes", len(cs.Recvd), len(cs.Expected))
+	}
+	return ""
 }
 
 // finalCheck: the connection is open, the peer has read everything it can get.
